@@ -1203,6 +1203,24 @@ impl World {
             // new device: fresh stores, fresh client (same identity, new keys)
             let gen = self.parties[q].generation + 1;
             let mut np = self.make_party(q, gen)?;
+            if self.cfg.knob("same-signer-rejoin").is_some() {
+                // the new device gets the identity key of the old one (it lived in a keystore that survived); only the
+                // group state is new
+                np.signer = self.parties[q].signer.clone();
+                np.signing_identity = self.parties[q].signing_identity.clone();
+                np.client = make_client(
+                    &np.crypto,
+                    &np.identity,
+                    &np.rules,
+                    &np.gstore,
+                    &np.kpstore,
+                    &np.pskstore,
+                    &np.signing_identity,
+                    &np.signer,
+                    self.suite,
+                );
+                self.stats.probe("rejoin-new-device-same-signature-key");
+            }
             std::mem::swap(&mut np.mems, &mut self.parties[q].mems);
             *np.pskstore.map.lock().unwrap() = self.parties[q].pskstore.map.lock().unwrap().clone();
             // keep removed objects of the old device alive inside mems (C02)
